@@ -1,0 +1,23 @@
+//go:build verif
+
+// Contracts for the verification machinery under /verif (contract-based deductive
+// verification). This file is comment-only, is excluded from every normal build by the
+// "verif" build tag, and declares nothing. See /verif/DESIGN.md §4.
+
+package opts
+
+// an option may do anything to the configuration it is given
+//@ iface Option.updateConfig(o, cfg) (err)
+//@   assigns *
+
+// C17: every option is applied to the one configuration, which is returned; with no options
+// there is no error. (That the error is non-nil exactly when some option failed rests on the
+// assumed contract of errors.Join.)
+//@ func ApplyOptions(cfg, opts) (res, err)
+//@   requires forall j int :: 0 <= j && j < len(opts) ==> opts[j] != nil
+//@   ensures res == cfg
+//@   ensures len(opts) == 0 ==> err == nil
+//@   assigns *
+//@   loop 1 (i):
+//@     invariant len(errs) == i
+//@     invariant forall j int :: 0 <= j && j < len(opts) ==> opts[j] != nil
